@@ -102,13 +102,12 @@ end
 mutual
 /-- `_final_check` on a subtree = (states that fire, children first; counts as final) -/
 theorem finalCheck_spec (D : Defs) (E : List Nat) :
-    ∀ t, (∀ i ∈ ids t, entered D E i = inE E i) → downClosed E t = true →
-      finalCheck D E t = (firing D E t, fin D t)
-  | .node s kids, hO, hD => by
+    ∀ t, downClosed E t = true → finalCheck D E t = (firing D E t, fin D t)
+  | .node s kids, hD => by
     have hDk : downClosedL E kids = true := by
       simp only [downClosed, Bool.and_eq_true] at hD; exact hD.2
-    have hs : entered D E s = inE E s := hO s (by simp [ids])
-    have hloop := finalLoop_spec D E kids (fun i hi => hO i (by simp [ids, hi])) hDk [] true
+    have hs : entered E s = inE E s := rfl
+    have hloop := finalLoop_spec D E kids hDk [] true
     simp only [finalCheck, hloop, List.nil_append, Bool.true_and, hs]
     cases kids with
     | nil =>
@@ -159,38 +158,21 @@ theorem finalCheck_spec (D : Defs) (E : List Nat) :
         simp only [firing]
         cases fires D E (.node s (k :: ks)) <;> simp
 theorem finalLoop_spec (D : Defs) (E : List Nat) :
-    ∀ ts, (∀ i ∈ idsL ts, entered D E i = inE E i) → downClosedL E ts = true → ∀ cbs all,
+    ∀ ts, downClosedL E ts = true → ∀ cbs all,
       finalLoop D E ts cbs all = (cbs ++ firingL D E ts, all && finAll D ts)
-  | [], _, _, cbs, all => by simp [finalLoop, firingL, finAll]
-  | t :: ts, hO, hD, cbs, all => by
+  | [], _, cbs, all => by simp [finalLoop, firingL, finAll]
+  | t :: ts, hD, cbs, all => by
     simp only [downClosedL, Bool.and_eq_true] at hD
-    simp only [finalLoop, finalCheck_spec D E t (fun i hi => hO i (by simp [idsL, hi])) hD.1,
-      finalLoop_spec D E ts (fun i hi => hO i (by simp [idsL, hi])) hD.2, firingL, finAll,
+    simp only [finalLoop, finalCheck_spec D E t hD.1, finalLoop_spec D E ts hD.2, firingL, finAll,
       List.append_assoc, Bool.and_assoc]
 end
 
 /-- the root call: never the AttributeError, and exactly the expected owners -/
-theorem entered_eq_of_noShared (D : Defs) (E : List Nat) (roots : List Tree) (h : noShared D E roots = true) :
-    ∀ i ∈ idsL roots, entered D E i = inE E i := by
-  intro i hi
-  simp only [noShared, List.all_eq_true] at h
-  rw [Bool.eq_iff_iff]
-  simp only [entered, inE, List.any_eq_true, List.contains_iff_mem, beq_iff_eq]
-  constructor
-  · rintro ⟨e, he, ho⟩
-    have := h e he i hi
-    simp only [Bool.or_eq_true, bne_iff_ne, ne_eq, beq_iff_eq] at this
-    rcases this with h1 | h1
-    · exact absurd ho h1
-    · exact h1 ▸ he
-  · intro h1
-    exact ⟨i, h1, rfl⟩
-
 theorem finalCheckRoot_spec (D : Defs) (E : List Nat) (roots : List Tree)
-    (hW : enteredWF E roots = true) (hS : noShared D E roots = true) :
+    (hW : enteredWF E roots = true) :
     finalCheckRoot D E roots = .ok (expected D E roots) := by
   simp only [enteredWF, Bool.and_eq_true] at hW
-  have hloop := finalLoop_spec D E roots (entered_eq_of_noShared D E roots hS) hW.1 [] true
+  have hloop := finalLoop_spec D E roots hW.1 [] true
   simp only [finalCheckRoot, hloop, List.nil_append, Bool.true_and, expected, machineFires]
   cases roots with
   | nil => simp [firingL]
